@@ -210,6 +210,15 @@ def run (ins outs : List String) : Verdict :=
       | none =>
         { agree := (perms params).any (fun o => urlPath j pp o == p), specOk := true, tag := "~P:nested-braces", model := encField m }
     | _, _, _, _ => .bad "P fields"
+  | ["P", joined, patPath, names, vals, _, _], ["ERR"] =>
+    -- http.NewRequest refused the built string: known for the F10a class (a path starting with "//"
+    -- is read as an authority, and what follows may not be a valid host), a violation otherwise
+    match decField joined, decField patPath, decPairs names vals with
+    | some j, some pp, some params =>
+      let m := urlPath j pp params
+      let f10a := m.take 2 == [47, 47]
+      { agree := f10a, specOk := false, known := (if f10a then "F10a" else "-"), tag := "P:request-refused", model := encField m }
+    | _, _, _ => .bad "P fields"
   | ["Q", bk, bv, pk, pv, ck, cv], [ok, ov] =>
     match decValues bk bv, decValues pk pv, decValues ck cv with
     | some b, some p, some c =>
